@@ -105,6 +105,11 @@ def vjoin(a, b):
     if b is None:
         return a
     if isinstance(a, Seq) and isinstance(b, Seq):
+        # the empty sequence (a fresh accumulator) contributes no element
+        if a.level is None and not a.rec and b.level is not None:
+            return b
+        if b.level is None and not b.rec and a.level is not None:
+            return a
         return Seq(lv_join(a.level, b.level), a.checked and b.checked, a.admitted and b.admitted, a.rec and b.rec, a.filtered and b.filtered)
     if isinstance(a, Node) and isinstance(b, Node):
         return Node(lv_join(a.level, b.level), a.checked and b.checked, a.admitted and b.admitted, a.rec and b.rec)
@@ -532,7 +537,9 @@ class IterFlow:
                     add = None
                     if c.func.attr == "append" and isinstance(v, Node):
                         adm, _ = self.admitted_here(v, facts)
-                        add = Seq(v.level, v.checked, adm)
+                        # appended behind `if filter_(x):` - the accumulator holds filtered nodes only
+                        flt = isinstance(c.args[0], ast.Name) and ("filter", c.args[0].id, True) in facts
+                        add = Seq(v.level, v.checked, adm, False, flt)
                     elif c.func.attr == "extend" and isinstance(v, Seq):
                         add = v
                     env2 = dict(env)
